@@ -13,7 +13,7 @@ import sys
 import tempfile
 
 ROOT = os.path.dirname(os.path.dirname(os.path.abspath(__file__)))
-REPO = os.environ.get("VERIF_REPO_ORIG", "/repo")
+REPO = os.environ.get("VERIF_REPO_ORIG") or os.environ.get("VERIF_REPO", "/repo")
 
 # (file, old text, new text, function under contract, substring of an obligation that must NOT be proved)
 MUTANTS = [
@@ -77,14 +77,18 @@ def run(mut, scratch):
 
 def main():
     muts = MUTANTS + (SLOW if "--slow" in sys.argv else [])
+    if "--only" in sys.argv:
+        only = set(sys.argv[sys.argv.index("--only") + 1].split(","))
+        muts = [m for m in muts if m[3] in only]
     scratch = tempfile.mkdtemp(prefix="verif_selftest_")
     try:
         shutil.copytree(os.path.join(REPO, "aldy"), os.path.join(scratch, "aldy"), ignore=shutil.ignore_patterns("*.so", "__pycache__", "resources"))
         survived = 0
         for m in muts:
             st, msg = run(m, scratch)
-            print(f"{st:9s} {m[3]:45s} {m[1][:40]!r} -> {msg}")
+            print(f"{st:9s} {m[3]:45s} {m[1][:40]!r} -> {msg}", flush=True)
             survived += st == "SURVIVED"
+        print(f"SELFTEST mutants={len(muts)} survived={survived}")
         return 1 if survived else 0
     finally:
         shutil.rmtree(scratch, ignore_errors=True)
